@@ -580,6 +580,12 @@ func (e *Engine) evalSpecCall(x *SExpr, env *SpecEnv) Value {
 			unsup("spec: arg(%s,%d,%d): no such call", args[0].Val, i, j)
 		}
 		return as[i][j]
+	case "ncalled":
+		// ncalled(Callee_Name): how many times the path under consideration has called that callee (through its contract)
+		if len(args) != 1 || args[0].Kind != "ident" {
+			unsup("spec: ncalled expects a callee name")
+		}
+		return VTerm{T: env.st.getMem("ncalled:"+args[0].Val, mkInt(0)), Typ: intT}
 	case "res":
 		// res(Callee_Name[, i[, j]]): result of the i-th contract call of that callee in the function under verification
 		if args[0].Kind != "ident" {
